@@ -483,6 +483,8 @@ class CallMixin:
             return REF(n)
         if isinstance(ann, ast.Subscript) and isinstance(ann.value, ast.Name) and ann.value.id in ('list', 'List', 'Seq'):
             return SEQ(self.ann_kind(ann.slice, fi))
+        if isinstance(ann, ast.Subscript) and isinstance(ann.value, ast.Name) and ann.value.id in ('set', 'Set'):
+            return ('set', self.ann_kind(ann.slice, fi))
         if isinstance(ann, ast.Subscript) and isinstance(ann.value, ast.Name) and ann.value.id == 'Stack':
             return ('stack', self.ann_kind(ann.slice, fi))
         if isinstance(ann, ast.Subscript) and isinstance(ann.value, ast.Name) and ann.value.id == 'Optional':
